@@ -263,6 +263,14 @@ class CompoundInstruction(BaseInstruction):
 # --------------------------------------------------------------------------
 # Model Writing
 
+def quote_doc(doc):
+    """Triple-quoted string literal that evaluates back to ``doc``"""
+    doc = doc.replace("\\", "\\\\").replace('"""', '\\"\\"\\"')
+    if doc.endswith('"'):
+        doc = doc[:-1] + '\\"'
+    return '"""' + doc + '"""'
+
+
 def output_input(obj, key):
 
     name = obj._get_repr(fullname=True, add_params=False)
@@ -438,7 +446,7 @@ class ModelEncoder(BaseEncoder):
     def encode(self):
         lines = []
         if self.model.doc is not None:
-            lines.append("\"\"\"" + self.model.doc + "\"\"\"")
+            lines.append(quote_doc(self.model.doc))
 
         lines.append("from modelx.serialize.jsonvalues import *")
         lines.append("_name = \"%s\"" % self.model.name)
@@ -496,7 +504,7 @@ class SpaceEncoder(BaseEncoder):
 
         lines = []
         if self.space.doc is not None:
-            lines.append("\"\"\"" + self.space.doc + "\"\"\"")
+            lines.append(quote_doc(self.space.doc))
 
         lines.append("from modelx.serialize.jsonvalues import *")
 
@@ -640,7 +648,7 @@ class CellsEncoder(BaseEncoder):
             if self.target.formula.source[:6] == "lambda":
                 line = self.target.name + " = " + self.target.formula.source
                 if self.target.doc:
-                    line += "\n" + ("\"\"\"%s\"\"\"" % self.target.doc)
+                    line += "\n" + quote_doc(self.target.doc)
                 lines.append(line)
             else:
                 lines.append(self.target.formula.source)
